@@ -107,12 +107,15 @@ MP_Calls(o)    == o.calls = calls + o.dEvals
 MP_Evals(o)    == o.dEvals = cfg.np
 MP_LogzHull(o) == o.zInHull
 
+\* a mode with this code was fitted from ALL training particles because its cluster attracted none of them
+FallbackMode == -2
+
 \* ---- MutateBegin (arguments reaching the MCMC kernel).  o = [slots, modes, modesOK]
 MB_SameSlots(o) == o.slots = cur
 MB_Labels(o)    == \A i \in DOMAIN o.slots :
                       /\ o.slots[i].lab >= 0
                       /\ o.slots[i].lab < Len(o.modes)
-                      /\ o.modes[o.slots[i].lab + 1] = o.slots[i].lab
+                      /\ o.modes[o.slots[i].lab + 1] \in {o.slots[i].lab, FallbackMode}
 MB_ModesOK(o)   == o.modesOK
 
 \* ---- Sweep.  o = [mask, prop, slots, dEvals]
@@ -266,7 +269,7 @@ CallsExact == pc \in {"ready", "reweighted", "trained", "resampled", "mutated", 
 \* C14: when the kernel runs, every label refers to a mode fitted from that label
 LabelsCoherent ==
     pc = "mutating" => \A i \in DOMAIN cur :
-        cur[i].lab >= 0 /\ cur[i].lab < Len(modes) /\ modes[cur[i].lab + 1] = cur[i].lab
+        cur[i].lab >= 0 /\ cur[i].lab < Len(modes) /\ modes[cur[i].lab + 1] \in {cur[i].lab, FallbackMode}
 
 \* C11: no record with zero likelihood is active after a mutation
 NoInfActive == pc = "mutated" => \A i \in DOMAIN cur : cur[i].fin
